@@ -338,7 +338,8 @@ def prepare(case):
             cur = c.get("boundary")
             c["boundary"] = dict(cur, **{a: word}) if isinstance(cur, dict) else (word if k % 2 else {a: word})
     elif edit in ("fill-nonnumeric", "fill-object"):
-        bad = pick(["abc", "nan?", "zero"], k) if edit == "fill-nonnumeric" else {"__object__": True}
+        # (falsy non-numbers included: an empty string or list is no more a number than 'abc')
+        bad = pick(["abc", "", "nan?", [], "zero", "", []], k // 2) if edit == "fill-nonnumeric" else {"__object__": True}
         if fn == "pad":
             wid = {a: w for a, w in call["widths"].items() if max(w) > 0}
             if not wid:
@@ -352,7 +353,8 @@ def prepare(case):
         ed["grid"]["boundary"] = pick(["reflect", "wrap", "Periodic"], k) if k % 2 else {a: "reflect"}
     elif edit == "grid-fill-nonnumeric":
         a = pick(sorted(gcoords), k)
-        ed["grid"]["fill_value"] = "abc" if k % 2 else {a: "abc"}
+        badg = pick(["abc", "", [], "0"], k // 2)
+        ed["grid"]["fill_value"] = badg if k % 2 else {a: badg}
     elif edit == "grid-position-unknown":
         a = pick(sorted(gcoords), k)
         posmap = dict(ed["grid"]["coords"][a])
